@@ -120,6 +120,8 @@ def concretize_value(model, v, ctx=None):
         return {k: concretize_value(model, x, ctx) for k, x in v.items()}
     if isinstance(v, Opaque):
         return None
+    if isinstance(v, Sym):
+        raise ValueError('abstract value %r has no concrete counterpart (use the contract sampler for a native witness)' % (v,))
     return v
 
 
@@ -251,6 +253,7 @@ def verify_contract(c, reg, timeout_ms=QUICK_TIMEOUT_MS, max_paths=4000, want_sm
         ctx.requires_len = len(ctx.pc)
         sig = inspect.signature(f)
         call_kwargs = {k: v for k, v in env.items() if k in sig.parameters}
+        ip.ghost_locals = {k: v for k, v in env.items() if k not in sig.parameters}
         if c.call is not None:
             call_kwargs.update(call_by_name(spec_ip, c.call, env))
         call_kwargs.update(c.kwargs)
@@ -270,6 +273,7 @@ def verify_contract(c, reg, timeout_ms=QUICK_TIMEOUT_MS, max_paths=4000, want_sm
         penv = dict(env)
         penv.update(olds)
         penv['call_args'] = call_kwargs
+        penv['locals'] = getattr(ip, 'top_locals', None) or {}
         if outcome.kind == 'raise':
             exc = outcome.detail.exc
             cond_fn = None
@@ -544,6 +548,10 @@ def _jsonable(v):
         return {'object': v.cls.__name__, 'fields': _jsonable(v.fields)}
     if isinstance(v, (int, str, bool, float, type(None))):
         return v
+    if hasattr(v, 'signatures') and hasattr(v, 'keys') and hasattr(v, 'sigs_required'):
+        return {'object': type(v).__name__, 'fields': {'keys': [getattr(k, 'public_hex', repr(k)) for k in v.keys],
+                                                      'signatures': [s.hex() if hasattr(s, 'hex') else repr(s) for s in v.signatures],
+                                                      'sigs_required': v.sigs_required, 'script_type': getattr(v, 'script_type', None)}}
     if hasattr(v, 'secret') and hasattr(v, 'public_hex'):
         return {'object': type(v).__name__, 'fields': {'secret': v.secret, 'public_hex': v.public_hex}}
     return repr(v)
@@ -628,6 +636,7 @@ def replay_native(c, conc, warmup=None):
     penv = dict(env)
     penv.update(olds)
     penv['call_args'] = kwargs
+    penv['locals'] = None
     if exc is not None:
         rep['observed'] = 'raises %s: %s' % (type(exc).__name__, exc)
         allowed = None
